@@ -190,6 +190,9 @@ class Hugr(Mapping[Node, NodeData], Generic[OpVarCov]):
         metadata: dict[str, Any] | None = None,
     ) -> Node:
         parent = parent.to_node() if parent else None
+        if parent is not None:
+            # fail before anything is recorded if the parent is not in the HUGR
+            self[parent]
         node_data = NodeData(op, parent, metadata=metadata or {})
 
         if self._free_nodes:
